@@ -1306,10 +1306,26 @@ func runFD08(p *Prog, r *RuleRun) {
 		case *ssa.UnOp:
 			// a uint64 field of a parameter (the running state passed as a struct / receiver)
 			if fa, ok := x.X.(*ssa.FieldAddr); ok && x.Op == token.MUL {
-				if _, isParam := fa.X.(*ssa.Parameter); isParam {
+				_, isParam := fa.X.(*ssa.Parameter)
+				if al, ok := fa.X.(*ssa.Alloc); ok {
+					// a struct parameter passed by value and assigned to lives in a local copy of it
+					for _, ref := range *al.Referrers() {
+						if st, ok := ref.(*ssa.Store); ok && st.Addr == ssa.Value(al) {
+							if _, fromParam := st.Val.(*ssa.Parameter); fromParam {
+								isParam = true
+							}
+						}
+					}
+				}
+				if isParam {
 					b, ok := x.Type().Underlying().(*types.Basic)
 					return ok && b.Kind() == types.Uint64
 				}
+			}
+		case *ssa.Field:
+			if _, isParam := x.X.(*ssa.Parameter); isParam {
+				b, ok := x.Type().Underlying().(*types.Basic)
+				return ok && b.Kind() == types.Uint64
 			}
 		}
 		return false
@@ -1481,16 +1497,105 @@ func runFD09(p *Prog, r *RuleRun) {
 		r.Unknown("anchor:txns", "?", "head/tail truncation transaction bodies not found under DeleteRange")
 		return
 	}
-	symbols := func(bound string) func(val ssa.Value) string {
+	// The transaction body sees the truncation bound through captured variables of its parent (the helper
+	// DeleteRange calls): the helper's uint64 parameter itself, or a local computed from it (newMin :=
+	// lastRemoved + 1).  fvOffsets gives, per captured uint64 variable, its fixed offset from that parameter.
+	fvOffsets := func(txn *ssa.Function) (map[*ssa.FreeVar]int64, bool) {
+		parent := txn.Parent()
+		if parent == nil {
+			return nil, false
+		}
+		var mc *ssa.MakeClosure
+		for _, b := range parent.Blocks {
+			for _, ins := range b.Instrs {
+				if m, ok := ins.(*ssa.MakeClosure); ok && m.Fn == ssa.Value(txn) {
+					mc = m
+				}
+			}
+		}
+		if mc == nil {
+			return nil, false
+		}
+		var linear func(v ssa.Value, depth int) (int64, bool)
+		linear = func(v ssa.Value, depth int) (int64, bool) {
+			if depth > 8 {
+				return 0, false
+			}
+			switch x := v.(type) {
+			case *ssa.Parameter:
+				if b, ok := x.Type().Underlying().(*types.Basic); ok && b.Kind() == types.Uint64 {
+					return 0, true
+				}
+			case *ssa.Convert:
+				return linear(x.X, depth+1)
+			case *ssa.BinOp:
+				if c, ok := x.Y.(*ssa.Const); ok && (x.Op == token.ADD || x.Op == token.SUB) {
+					if o, ok := linear(x.X, depth+1); ok {
+						if x.Op == token.ADD {
+							return o + c.Int64(), true
+						}
+						return o - c.Int64(), true
+					}
+				}
+			case *ssa.UnOp:
+				if x.Op == token.MUL {
+					if al, ok := x.X.(*ssa.Alloc); ok {
+						return linear(al, depth+1)
+					}
+				}
+			case *ssa.Alloc:
+				var stored ssa.Value
+				n := 0
+				for _, ref := range *x.Referrers() {
+					if st, ok := ref.(*ssa.Store); ok && st.Addr == ssa.Value(x) {
+						stored = st.Val
+						n++
+					}
+				}
+				if n == 1 {
+					return linear(stored, depth+1)
+				}
+			}
+			return 0, false
+		}
+		out := map[*ssa.FreeVar]int64{}
+		for i, fv := range txn.FreeVars {
+			t := fv.Type()
+			if pt, ok := t.(*types.Pointer); ok {
+				t = pt.Elem()
+			}
+			if b, ok := t.Underlying().(*types.Basic); !ok || b.Kind() != types.Uint64 {
+				continue
+			}
+			if i >= len(mc.Bindings) {
+				return nil, false
+			}
+			o, ok := linear(mc.Bindings[i], 0)
+			if !ok {
+				return nil, false
+			}
+			out[fv] = o
+		}
+		return out, len(out) > 0
+	}
+	symbols := func(bound string, offs map[*ssa.FreeVar]int64) func(val ssa.Value) string {
+		name := func(fv *ssa.FreeVar) string {
+			if o, ok := offs[fv]; ok {
+				return fmt.Sprintf("%s%+d", bound, o)
+			}
+			return ""
+		}
 		return func(val ssa.Value) string {
 			switch x := val.(type) {
+			case *ssa.FreeVar:
+				if _, isPtr := x.Type().(*types.Pointer); !isPtr {
+					return name(x)
+				}
 			case *ssa.UnOp:
 				if x.Op == token.MUL {
 					if fv, ok := x.X.(*ssa.FreeVar); ok {
-						if pt, ok := fv.Type().(*types.Pointer); ok {
-							if b, ok := pt.Elem().Underlying().(*types.Basic); ok && b.Kind() == types.Uint64 {
-								return bound
-							}
+						if s := name(fv); s != "" {
+							return s
 						}
 					}
 				}
@@ -1523,8 +1628,6 @@ func runFD09(p *Prog, r *RuleRun) {
 	}
 	effect := func(ins ssa.Instruction, eval func(ssa.Value) fdVal) (string, bool) {
 		switch x := ins.(type) {
-		case *ssa.MapUpdate:
-			return "DROPPED", true
 		case *ssa.Store:
 			if fieldOfAddr(x.Addr) == minF {
 				return "CHOSEN", true // the new head's MinIndex is moved up
@@ -1532,6 +1635,10 @@ func runFD09(p *Prog, r *RuleRun) {
 		case *ssa.Call:
 			if c := x.Call.StaticCallee(); c != nil && c == p.Func("", "state.getTailInfo") {
 				return "LOOP-LEFT", true
+			}
+			// the segment leaves the working segment list (what is then closed/deleted is VF-15's question)
+			if c := x.Call.StaticCallee(); c != nil && strings.HasPrefix(c.Name(), "Delete") && strings.Contains(c.String(), "immutable.SortedMap") {
+				return "DROPPED", true
 			}
 			if c := x.Call.StaticCallee(); c != nil && (strings.HasPrefix(c.Name(), "Prev") || strings.HasPrefix(c.Name(), "Next")) && strings.Contains(c.String(), "immutable.SortedMapIterator") {
 				return "SEG", false
@@ -1546,7 +1653,13 @@ func runFD09(p *Prog, r *RuleRun) {
 	}
 	// head truncation
 	{
-		spec := &fdSpec{Inline: inlineHelpers, Symbol: symbols("newMin"), Effect: effect, MaxVisits: 1}
+		offs, okFv := fvOffsets(headTxn)
+		if !okFv {
+			r.Unknown(funcDisplay(headTxn)+":keep-or-drop", p.Position(headTxn.Pos()), "the head truncation's captured bound is not a fixed offset from its helper's parameter")
+			return
+		}
+		spec := &fdSpec{Inline: inlineHelpers, Symbol: symbols("newMin", offs), Effect: effect, MaxVisits: 1}
+		// "newMin" is the value of the helper's parameter (max+hd); each captured variable is newMin+offset
 		names := []string{"newMin", "Max", "last", "tailLast", "b:unsealed"}
 		var bad []string
 		n := enumAssignments(names, 0, 3, func(a map[string]int64) bool {
@@ -1554,6 +1667,9 @@ func runFD09(p *Prog, r *RuleRun) {
 		}, func(a map[string]int64) {
 			// the helper's argument is max+hd: entries <= max go, so a segment stays iff it holds an entry > max
 			delMax := a["newMin"] - hd
+			for _, o := range offs {
+				a[fmt.Sprintf("newMin%+d", o)] = a["newMin"] + o
+			}
 			keep := a["Max"] > delMax
 			if a["b:unsealed"] == 1 {
 				keep = a["last"] > delMax
@@ -1580,7 +1696,12 @@ func runFD09(p *Prog, r *RuleRun) {
 	}
 	// tail truncation
 	{
-		spec := &fdSpec{Inline: inlineHelpers, Symbol: symbols("newMax"), Effect: effect, MaxVisits: 1, RecordCut: true}
+		offs, okFv := fvOffsets(tailTxn)
+		if !okFv {
+			r.Unknown(funcDisplay(tailTxn)+":keep-or-drop", p.Position(tailTxn.Pos()), "the tail truncation's captured bound is not a fixed offset from its helper's parameter")
+			return
+		}
+		spec := &fdSpec{Inline: inlineHelpers, Symbol: symbols("newMax", offs), Effect: effect, MaxVisits: 1, RecordCut: true}
 		names := []string{"newMax", "Base"}
 		var bad []string
 		nSeg := 0
@@ -1589,6 +1710,9 @@ func runFD09(p *Prog, r *RuleRun) {
 			// Every path through the loop body for such a segment must drop it (a path that skips it - an
 			// "empty tail" shortcut, say - leaves a segment the code after the loop takes for the surviving one).
 			delMin := a["newMax"] - td
+			for _, o := range offs {
+				a[fmt.Sprintf("newMax%+d", o)] = a["newMax"] + o
+			}
 			drop := a["Base"] >= delMin
 			for _, t := range fdRun(tailTxn, spec, a) {
 				i := strings.Index(t, "SEG")
